@@ -570,3 +570,178 @@ class DeltaCoherenceEnumeration(NativeCheck):
 
 
 NATIVE = [DeltaCoherenceEnumeration]
+
+
+# ------------------------------------------------------------------ push: the two window policies as compositions of the core
+
+
+class PushKernel(WindowKernel):
+    """callee contracts of the core operations (each proved above), stated on the window view"""
+
+    def havoc_window(self, ctx, size_new, keep_from, keep_n, extra=None):
+        """new buffers/head/capacity with view'(i) = view(keep_from + i) for i < keep_n (and view'(keep_n) = extra)"""
+        oldV = lambda i: self.view(ctx, "V", i)
+        oldT = lambda i: self.view(ctx, "T", i)
+        refs = [(oldV, oldT)]
+        nv, nt = ctx.fresh("values_after", self.V0.sort()), ctx.fresh("times_after", self.T0.sort())
+        cap, head = ctx.fresh("capacity_after"), ctx.fresh("head_after")
+        old_vals = [(self.st(ctx, "buf:curV"), self.st(ctx, "buf:curT"), self.st(ctx, "capacity_"), self.st(ctx, "head_"))]
+        V_, T_, c_, h_ = old_vals[0]
+        ov = lambda i: V_[self.phys(c_, h_, i)]
+        ot = lambda i: T_[self.phys(c_, h_, i)]
+        ctx.assume(self.winv(cap, size_new, head))
+        ctx.assume(z3.ForAll([qi], z3.Implies(z3.And(qi >= 0, qi < keep_n), z3.And(
+            nv[self.phys(cap, head, qi)] == ov(keep_from + qi), nt[self.phys(cap, head, qi)] == ot(keep_from + qi)))))
+        if extra is not None:
+            ctx.assume(z3.And(nv[self.phys(cap, head, keep_n)] == extra[0], nt[self.phys(cap, head, keep_n)] == extra[1]))
+        ctx.write(Loc((self.core.oid, "buf:curV")), nv)
+        ctx.write(Loc((self.core.oid, "buf:curT")), nt)
+        ctx.write(Loc((self.core.oid, "capacity_")), cap)
+        ctx.write(Loc((self.core.oid, "head_")), head)
+        ctx.write(Loc((self.core.oid, "size_")), size_new)
+        return cap
+
+    def w_size(self, I, a, n):
+        return self.st(I.ctx, "size_")
+
+    def w_append(self, I, a, n):
+        ctx = I.ctx
+        size, cap = self.st(ctx, "size_"), self.st(ctx, "capacity_")
+        if ctx.choose(2, "append: source rejected") == 1:
+            I.throw_new("invalid_argument", "validate_source")
+        if ctx.decide(z3.Or(cap == 0, size >= cap), "append: no room"):
+            I.throw_new("logic_error", "append")
+        self.havoc_window(ctx, size + 1, z3.IntVal(0), size, extra=(src_value(ctx, self.src_ptr), ctx.rv(a[1])))
+        return VOID
+
+    def w_overwrite_oldest(self, I, a, n):
+        ctx = I.ctx
+        size, cap = self.st(ctx, "size_"), self.st(ctx, "capacity_")
+        ctx.oblige("callee-pre.overwrite_oldest:the-window-is-full", z3.And(size == cap, cap > 0), kind="callee-pre")
+        if ctx.choose(2, "overwrite: source rejected or storage not assignable") == 1:
+            I.throw_new("invalid_argument", "validate_source")
+        ctx.write(Loc((self.core.oid, "evicted_")), self.view(ctx, "V", z3.IntVal(0)))
+        ctx.write(Loc((self.core.oid, "evicted_time_")), ctx.rv(a[1]))
+        self.havoc_window(ctx, size, z3.IntVal(1), size - 1, extra=(src_value(ctx, self.src_ptr), ctx.rv(a[1])))
+        return VOID
+
+    def w_time_at(self, I, a, n):
+        ctx = I.ctx
+        i = ctx.rv(a[0])
+        if ctx.decide(i >= self.st(ctx, "size_"), "time_at: index out of range"):
+            I.throw_new("out_of_range", "time_at")
+        return self.view(ctx, "T", i)
+
+    def w_prune_before(self, I, a, n):
+        ctx = I.ctx
+        cut = ctx.rv(a[0])
+        size = self.st(ctx, "size_")
+        d = ctx.fresh("pruned")
+        ctx.assume(z3.And(d >= 0, d <= size,
+                          z3.ForAll([qi], z3.Implies(z3.And(qi >= 0, qi < d), self.view(ctx, "T", qi) < cut)),
+                          z3.Implies(d < size, self.view(ctx, "T", d) >= cut)))
+        self.havoc_window(ctx, size - d, d, size - d)
+        self.pruned = d
+        return VOID
+
+    def w_ensure_capacity(self, I, a, n):
+        ctx = I.ctx
+        req = ctx.rv(a[0])
+        size = self.st(ctx, "size_")
+        cap = self.havoc_window(ctx, size, z3.IntVal(0), size)
+        ctx.assume(cap >= req)
+        return VOID
+
+
+class SizeWindowPush(PushKernel):
+    cls_name = "SizeTSWindowStorage"
+    name = "ts_data_window_ops.cpp:SizeTSWindowStorage::push"
+    fn_name = "push"
+    filter = "SizeTSWindowStorage::push"
+    title = "tick-count window push: the window holds exactly the most recent `period` pushed values, in order"
+
+    def setup(self, I):
+        th = self.base(I)
+        ctx = I.ctx
+        self.period = z3.Int("period")
+        ctx.assume(z3.And(self.period >= 1, self.cap0 == self.period))        # the constructor reserves exactly `period` slots
+        ctx.store[(th.oid, "period_")] = self.period
+        self.pushed, self.t = z3.Int("pushed_value"), z3.Int("modified_time")
+        self.src_ptr = SrcPtr(self.pushed)
+        s = Obj("ValueView", "source")
+        s.m_data = lambda I_, a, n_: self.src_ptr
+        return th, {"source": s, "modified_time": self.t}
+
+    def post(self, I, ret):
+        ctx = I.ctx
+        n = self.size0
+        full = n >= self.period
+        size = self.st(ctx, "size_")
+        shift = z3.If(full, 1, 0)
+        ctx.oblige("ensures.window'=the-most-recent-period-values-of-(window++[pushed]),in-order[C05 a tick-count window holds exactly "
+                   "the most recent N pushed values in order]", z3.And(
+                       size == z3.If(full, n, n + 1), self.winv_now(ctx),
+                       self.view(ctx, "V", size - 1) == self.pushed, self.view(ctx, "T", size - 1) == self.t,
+                       z3.ForAll([qi], z3.Implies(z3.And(qi >= 0, qi < size - 1), z3.And(
+                           self.view(ctx, "V", qi) == self.view0("V", qi + shift), self.view(ctx, "T", qi) == self.view0("T", qi + shift)))),
+                       z3.Implies(full, self.st(ctx, "evicted_") == self.view0("V", z3.IntVal(0)))), kind="post-normal")
+
+    def post_exc(self, I, exc):
+        I.ctx.oblige("raises.only-for-a-rejected-source", z3.BoolVal(exc.origin in ("validate_source",)), kind="post-exceptional")
+
+
+class TimeWindowPush(PushKernel):
+    cls_name = "TimeTSWindowStorage"
+    name = "ts_data_window_ops.cpp:TimeTSWindowStorage::push"
+    fn_name = "push"
+    filter = "TimeTSWindowStorage::push"
+    title = "duration window push: elements older than (now - range) leave oldest first, the pushed one becomes the newest"
+
+    def setup(self, I):
+        th = self.base(I)
+        ctx = I.ctx
+        self.range = z3.Int("time_range")
+        ctx.assume(self.range >= 0)
+        ctx.store[(th.oid, "time_range_")] = self.range
+        self.pushed, self.t = z3.Int("pushed_value"), z3.Int("modified_time")
+        self.src_ptr = SrcPtr(self.pushed)
+        self.pruned = z3.IntVal(0)
+        s = Obj("ValueView", "source")
+        s.m_data = lambda I_, a, n_: self.src_ptr
+        return th, {"source": s, "modified_time": self.t}
+
+    def inv(self, I, ctx):
+        d = self.local(I, "dropped")
+        cut = self.t - self.range
+        yield "dropped-prefix-is-older-than-the-cutoff", z3.And(d >= 0, d <= self.size0, z3.ForAll([qi], z3.Implies(
+            z3.And(qi >= 0, qi < d), self.view0("T", qi) < cut)))
+        yield "window-untouched", z3.And(self.st(ctx, "size_") == self.size0, self.st(ctx, "head_") == self.head0,
+                                         self.st(ctx, "capacity_") == self.cap0, self.st(ctx, "buf:curV") == self.V0,
+                                         self.st(ctx, "buf:curT") == self.T0)
+
+    @property
+    def loops(self):
+        return {0: LoopSpec(self.inv, lambda I, ctx: [])}
+
+    def post(self, I, ret):
+        ctx = I.ctx
+        cut = self.t - self.range
+        size = self.st(ctx, "size_")
+        d = self.size0 + 1 - size
+        ctx.oblige("ensures.window'=(window-minus-the-maximal-prefix-older-than-now-range)++[pushed][C05 elements leave a duration "
+                   "window oldest first and only when out of range]", z3.And(
+                       d >= 0, d <= self.size0, self.winv_now(ctx),
+                       z3.ForAll([qi], z3.Implies(z3.And(qi >= 0, qi < d), self.view0("T", qi) < cut)),
+                       z3.Implies(d < self.size0, self.view0("T", d) >= cut),
+                       self.view(ctx, "V", size - 1) == self.pushed, self.view(ctx, "T", size - 1) == self.t,
+                       z3.ForAll([qi], z3.Implies(z3.And(qi >= 0, qi < size - 1), z3.And(
+                           self.view(ctx, "V", qi) == self.view0("V", qi + d), self.view(ctx, "T", qi) == self.view0("T", qi + d))))),
+                   kind="post-normal")
+        ctx.oblige("ensures.removed_value=the-last-element-dropped", z3.Implies(d > 0, z3.And(
+            self.st(ctx, "evicted_") == self.view0("V", d - 1), self.st(ctx, "evicted_time_") == self.t)), kind="post-normal")
+
+    def post_exc(self, I, exc):
+        I.ctx.oblige("raises.only-for-a-rejected-source", z3.BoolVal(exc.origin in ("validate_source",)), kind="post-exceptional")
+
+
+KERNELS += [SizeWindowPush, TimeWindowPush]
